@@ -165,6 +165,9 @@ structure St where
   /-- number of flights that went to the upstream (the others were answered from the cache by the
   leader's own re-check inside the flight) -/
   activated : Nat
+  /-- ghost: every upstream message `dialSend` accepted (question check passed), with the key of the
+  request it was accepted for - used only to state where answers come from -/
+  accepted : List (Key × UpMsg)
   deriving Repr
 
 def lookup {β} (l : List (Key × β)) (k : Key) : Option β := (l.find? (fun p => p.1 == k)).map (·.2)
@@ -173,7 +176,7 @@ def insert {β} (l : List (Key × β)) (k : Key) (v : β) : List (Key × β) := 
 
 def init (clients : List Client) : St :=
   { clients := clients, pcs := clients.map fun _ => Pc.init, cache := [], active := [], flights := [],
-    outs := [], calls := [], activated := 0 }
+    outs := [], calls := [], activated := 0, accepted := [] }
 
 /-- `forwardWithFallback`: primary attempt, and for `tcp+udp` a TCP attempt when UDP failed or
 answered with TC=1 (`DoUDP.ForwardDNS` returns `ErrDNSTruncated`). -/
@@ -307,7 +310,9 @@ def step (cfg : Cfg) (s : St) : Act → St
         if f' = f then
           let (r, cache') := dialSend cfg c sch a1 a2 s.cache
           { s with cache := cache', flights := s.flights.set f { fl with result := some r },
-                   active := erase s.active fl.key }.setPc fl.leader (.waiting f)
+                   active := erase s.active fl.key,
+                   accepted := match r with | .ok m => s.accepted ++ [(c.key, m)] | .err _ => s.accepted
+                   }.setPc fl.leader (.waiting f)
         else s
       | _, _, _ => s
     | none => s
@@ -330,7 +335,10 @@ def step (cfg : Cfg) (s : St) : Act → St
     { s with cache := s.cache.map fun p => if p.1 == k then (p.1, { p.2 with q := { p.2.q with spell := sp } }) else p }
   | .refresh i sch a1 a2 =>
     match s.clients[i]? with
-    | some c => { s with cache := (dialSend cfg c sch a1 a2 s.cache).2 }
+    | some c =>
+      { s with cache := (dialSend cfg c sch a1 a2 s.cache).2,
+               accepted := match (dialSend cfg c sch a1 a2 s.cache).1 with
+                 | .ok m => s.accepted ++ [(c.key, m)] | .err _ => s.accepted }
     | none => s
 
 def run (cfg : Cfg) (s : St) (as : List Act) : St := as.foldl (step cfg) s
